@@ -159,12 +159,14 @@ func runC11(c C11Case) (v *Violation, st c11Stats) {
 		}
 		for i, e := range skv {
 			idx, v2, err := it.GetWithIndex(e.K)
-			if err != nil || idx != int64(i) || !bytes.Equal(v2, e.V) {
-				return viol("rank", "%s: GetWithIndex(%q)=%d,%q,%v want rank %d", name, e.K, idx, v2, err, i)
+			if err != nil || idx != int64(i) || !bytes.Equal(v2, e.V) || v2 == nil {
+				// (a nil value is GetWithIndex's answer for an ABSENT key)
+				return viol("rank", "%s: GetWithIndex(%q)=%d,%q,nil=%v,%v want rank %d value %q", name, e.K, idx, v2, v2 == nil, err, i, e.V)
 			}
 			k2, v3, err := it.GetByIndex(int64(i))
-			if err != nil || !bytes.Equal(k2, e.K) || !bytes.Equal(v3, e.V) {
-				return viol("rank", "%s: GetByIndex(%d)=%q,%q,%v want %q", name, i, k2, v3, err, e.K)
+			if err != nil || !bytes.Equal(k2, e.K) || !bytes.Equal(v3, e.V) || k2 == nil || v3 == nil {
+				// (nil key / nil value is GetByIndex's answer for a rank that is OUT OF RANGE)
+				return viol("rank", "%s: GetByIndex(%d)=%q,%q,nil=%v/%v,%v want %q,%q", name, i, k2, v3, k2 == nil, v3 == nil, err, e.K, e.V)
 			}
 			// the existence test and the lookup by key agree with the lookup by rank
 			if has, err := it.Has(e.K); err != nil || !has {
@@ -266,6 +268,10 @@ func runC11(c C11Case) (v *Violation, st c11Stats) {
 		switch op.Kind {
 		case "set":
 			_, had := work[op.K]
+			val := val
+			if len(op.K)%4 == 3 {
+				val = []byte{} // a quarter of the keys carry the empty value (a stored pair, not an absent one)
+			}
 			upd, err := tr.Set([]byte(op.K), val)
 			if err != nil || upd != had {
 				return viol("set", "Set(%q)=%v,%v", op.K, upd, err), st
